@@ -616,22 +616,22 @@ def run(chk):
                ([] if quick else ['Gen_Sequencer_thorough_kinds.cfg'])
     sim_gens = [f'Gen_SimDrive_{tier}_move.cfg', f'Gen_SimDrive_{tier}_ramp.cfg', f'Gen_SimDrive_{tier}_store.cfg']
     thunks = [lambda: model_check('Sequencer', f'MC_Sequencer_{tier}.cfg', timeout=1200),
-              lambda: run_tlc('Sequencer', 'MC_Sequencer_asimpl.cfg', timeout=300),
-              lambda: model_check('SimDrive', f'MC_SimDrive_{tier}.cfg', timeout=1200),
-              lambda: run_tlc('SimDrive', 'MC_SimDrive_asimpl.cfg', timeout=300)]
-    if not quick:
-        thunks.append(lambda: model_check('SimDrive', 'MC_SimDrive_jitter.cfg', timeout=1200))
+              lambda: model_check('SimDrive', f'MC_SimDrive_{tier}.cfg', timeout=1200)]
+    if not quick:       # vacuity (the models of the code as it stands must violate the properties) and the jitter model
+        thunks += [lambda: run_tlc('Sequencer', 'MC_Sequencer_asimpl.cfg', timeout=300),
+                   lambda: run_tlc('SimDrive', 'MC_SimDrive_asimpl.cfg', timeout=300),
+                   lambda: model_check('SimDrive', 'MC_SimDrive_jitter.cfg', timeout=1200)]
     for cfg in seq_gens:
         thunks.append(lambda cfg=cfg: emit_behaviours('Gen_Sequencer', cfg, maximal_only=True, timeout=1200))
     for cfg in sim_gens:
         thunks.append(lambda cfg=cfg: emit_behaviours('Gen_SimDrive', cfg, maximal_only=False, timeout=1200))
-    out = run_parallel(thunks, width=4)
+    out = run_parallel(thunks, width=5)
     ngen = len(seq_gens) + len(sim_gens)
     mcs, gens = out[:len(out) - ngen], out[len(out) - ngen:]
-    for r, prop in ((mcs[1], 'StopNoNewStep'), (mcs[3], 'BusyOnChange')):      # vacuity: the properties can fail
+    for r, prop in zip(mcs[2:4], ('StopNoNewStep', 'BusyOnChange')):
         if not (r.violated and r.violated[1] == prop):
             raise MachineryError(f'the as-implemented model is expected to violate {prop}: {r.violated or r.error}')
-    for r in (mcs[0], mcs[2]) + tuple(mcs[4:]):
+    for r in mcs[:2] + mcs[4:]:
         chk.add_tlc(r)
     seq_behs, sim_behs = [], []
     for (r, b), cfg in zip(gens, seq_gens + sim_gens):
@@ -641,8 +641,9 @@ def run(chk):
 
     # ---- 2 sequencer, spec -> code
     jobs = list(zip(seq_behs, _alts(seq_behs)))
-    jobs = jobs[chk.seed % 2::2]       # both tiers replay every second behaviour (offset by the seed)
-    chk.notes['sequencer_behaviours_sampled'] = '1 of 2'
+    step = 3 if quick else 2           # every third / second behaviour is replayed (offset by the seed)
+    jobs = jobs[chk.seed % step::step]
+    chk.notes['sequencer_behaviours_sampled'] = f'1 of {step}'
     res = pool_map(_replay_seq, jobs)
     for (beh, _), bad in zip(jobs, res):
         chk.impl_traces += 1
